@@ -262,6 +262,7 @@ func checkC05(c *Check) {
 	}
 	hos := findHandOffs(p)
 	j := &CtxJudge{P: p}
+	jNoDeadline := &CtxJudge{P: p, NoDeadline: true}
 	perPrefix := map[string]int{}
 	isHO := func(in ssa.Instruction) bool {
 		for _, x := range hos {
@@ -446,6 +447,17 @@ func checkC05(c *Check) {
 					}
 				}
 				c.Cond(nother == 0 && sel.Blocking, "handoff-only-cancellation-gives-up", name, pos, "the select waits for the hand-over or Done() and nothing else", "the hand-over can be abandoned for a reason other than cancellation (a timer, another channel, a default case): the login event is written but no login reaches the correlator")
+				// ... and that Done() is the worker's shutdown, not a deadline
+				// set somewhere between the worker and the hand-over
+				for _, st := range sel.States {
+					if x := doneRecvOf(st.Chan); x != nil {
+						okD, whyD := jNoDeadline.OK(r, x)
+						if !okD && !strings.Contains(whyD, "deadline") {
+							okD = true // other defects of the context are judged by handoff-cancellable
+						}
+						c.Cond(okD, "handoff-only-cancellation-gives-up", name+": the awaited context ends only with the worker", pos, "no deadline or timeout on the way from the worker's context", "the hand-over gives up when a deadline passes ("+whyD+"): the login event is written but, with a slow correlator, no login reaches it")
+					}
+				}
 			} else {
 				c.Bad("handoff-cancellable", name, pos, "bare send of the login: blocks for ever when the correlator has stopped")
 			}
@@ -581,6 +593,16 @@ func checkEntryRefs(c *Check, d *Dispatch) {
 			}
 		}
 	}
+	// table-driven dispatch: the table is built in the package initialiser;
+	// a reference there is the element the evaluation of the table found
+	// (one reference per row that names the function)
+	tabRows := map[*ssa.Function]int{}
+	for _, r := range d.Rows {
+		if r.TabG != nil {
+			tabRows[r.Fn]++
+		}
+	}
+	initRefs := map[*ssa.Function]int{}
 	for _, fn := range p.AllRepoFuncs() {
 		if fn.Synthetic != "" && entry[fn] {
 			continue // the thunk's own call of the method
@@ -593,12 +615,28 @@ func checkEntryRefs(c *Check, d *Dispatch) {
 					continue
 				}
 				n++
+				if fn.Name() == "init" && fn.Synthetic != "" && FuncPkgPath(fn) == FuncPkgPath(d.Fn) {
+					tf := f
+					if u := unwrapBound(f); u != f {
+						tf = u
+					}
+					initRefs[tf]++
+					if initRefs[tf] <= tabRows[tf] {
+						continue
+					}
+				}
 				inDispatch := fn == d.Fn
 				if !inDispatch {
 					// the nested dispatcher returns it
 					if _, isRet := in.(*ssa.Return); isRet {
 						for _, ci := range callsIn(d.Fn) {
 							if staticCallee(ci.Common()) == fn {
+								inDispatch = true
+							}
+						}
+						// ... or is the selector a row of the dispatch table names
+						for _, r := range d.Rows {
+							if r.Sel == fn || (r.Inner && r.Site == in) {
 								inDispatch = true
 							}
 						}
